@@ -220,4 +220,38 @@ theorem lzma2_check_sound (pb : Nat) (chunks : List Lzma2.Chunk) (w : Lzma2.WSta
     (h : Lzma2.checkChunks pb chunks w = some data) : Lzma2.ChunksOk pb chunks w data :=
   Lzma2.checkChunks_sound pb chunks w data h
 
+
+/-! ## LZMA2 chunk size limit of the encoder
+
+`encode_for_lzma2` runs `while uncompressed_size <= LZMA2_UNCOMPRESSED_LIMIT && pending <= LZMA2_COMPRESSED_LIMIT
+{ encode_symbol }`; a symbol covers 1..MATCH_LEN_MAX bytes.  The chunk header stores `size - 1` in 5 + 16 bits, so
+a chunk may hold at most 2^21 bytes (`ChunksOk` requires it, the reader model's `lzmaChunkSize` cannot express
+more).  With the constants re-extracted from `src/enc/encoder.rs` on this run the loop can never exceed it. -/
+
+/-- the uncompressed size the chunk loop ends with, for the symbol lengths it is offered -/
+def chunkLoopUnc : Nat → List Nat → Nat
+  | acc, [] => acc
+  | acc, l :: ls => if acc ≤ Consts.LZMA2_UNCOMPRESSED_LIMIT then chunkLoopUnc (acc + l) ls else acc
+
+theorem lzma2_limit_constants_fit : Consts.LZMA2_UNCOMPRESSED_LIMIT + Consts.MATCH_LEN_MAX ≤ 2 ^ 21 := by decide
+
+theorem lzma2_chunk_loop_fits (lens : List Nat) (h : ∀ l ∈ lens, l ≤ Consts.MATCH_LEN_MAX) :
+    ∀ acc, acc ≤ Consts.LZMA2_UNCOMPRESSED_LIMIT + Consts.MATCH_LEN_MAX →
+      chunkLoopUnc acc lens ≤ 2 ^ 21 := by
+  have hc := lzma2_limit_constants_fit
+  induction lens with
+  | nil => intro acc ha; simp only [chunkLoopUnc]; omega
+  | cons l ls ih =>
+    intro acc ha
+    simp only [chunkLoopUnc]
+    split
+    · rename_i hle
+      apply ih (fun x hx => h x (List.mem_cons_of_mem _ hx))
+      have := h l (List.mem_cons_self ..)
+      omega
+    · omega
+
+/-- the bound is tight: one more byte of limit and a maximal match overflows the 21-bit size field -/
+example : chunkLoopUnc 0 [Consts.LZMA2_UNCOMPRESSED_LIMIT, Consts.MATCH_LEN_MAX] = 2 ^ 21 := by decide
+
 end LzmaVerif.Props.C01
